@@ -996,6 +996,10 @@ def install(E):
         return UNIT
     reg(r'^(?:std::vec::|alloc::vec::)?Vec::<(?!u8>).*>::push$', h_push)
 
+    def h_vec_new(E, m, func, argv, guard, mem, dty, caller):
+        return Seq([], 0, m.group(1))
+    reg(r'^(?:std::vec::|alloc::vec::)?Vec::<(?!u8>)(.*)>::new$', h_vec_new)
+
     def h_index(E, m, func, argv, guard, mem, dty, caller):
         r, s = seq_ref(E, argv[0], mem, guard)
         idx = argv[1]
